@@ -76,6 +76,24 @@ pub async fn take(h: &mut Harness) -> Snapshot {
         list.sort();
         snap.insert("cat/root_pats".into(), list.join(","));
     }
+    // are there accepted-but-unsaved messages? (their batch header is only accounted for once they are
+    // written, so byte sizes are comparable across a restart only when nothing is buffered)
+    {
+        let mut buffered = 0u64;
+        if let Some(shared) = h.world.shared() {
+            let system = shared.read().await;
+            for s in h.model.streams.values() {
+                for t in s.topics.values() {
+                    for p in t.partitions.keys() {
+                        if let Some(view) = server::verif::inspect_partition(&system, s.id, t.id, *p).await {
+                            buffered += view.segments.iter().map(|x| x.unsaved.map(|u| u.2 as u64).unwrap_or(0)).sum::<u64>();
+                        }
+                    }
+                }
+            }
+        }
+        snap.insert("meta/buffered".into(), buffered.to_string());
+    }
     // messages and stored offsets of every partition the model knows
     let targets: Vec<(u32, u32, u32, u64, u64, Vec<u32>, Vec<u32>, bool)> = h
         .model
@@ -187,10 +205,20 @@ pub fn compare(h: &mut Harness, before: &Snapshot, after: &Snapshot, tree_before
     let mut keys: Vec<&String> = before.keys().chain(after.keys()).collect();
     keys.sort();
     keys.dedup();
+    let catalogue_changed = before.iter().filter(|(k, _)| k.starts_with("cat/")).any(|(k, v)| after.get(k) != Some(v)) || after.keys().any(|k| k.starts_with("cat/") && !before.contains_key(k));
+    let sizes_comparable = before.get("meta/buffered").map(|x| x == "0").unwrap_or(false);
+    let strip_size = |v: Option<&String>| -> Option<String> { v.map(|v| v.split(' ').filter(|part| !part.starts_with("size=")).collect::<Vec<_>>().join(" ")) };
     for key in keys {
         let b = before.get(key);
         let a = after.get(key);
-        if a == b {
+        if a == b || key.starts_with("meta/") {
+            continue;
+        }
+        if key.starts_with("fig/") && !sizes_comparable && strip_size(a) == strip_size(b) {
+            continue;
+        }
+        // figures of a catalogue that itself changed across the restart are C05's business, not C16's
+        if key.starts_with("fig/") && catalogue_changed {
             continue;
         }
         let class = key.split('/').next().unwrap_or("");
